@@ -631,3 +631,124 @@ Proof.
   cbv zeta. split; [vm_compute; reflexivity|]. split; [vm_compute; reflexivity|].
   eexists. split; vm_compute; reflexivity.
 Qed.
+
+(* ---------- wave 6: no size guard; data of any length ---------- *)
+From FFS Require Import Tx.SignProofs7.
+
+(* 20. Theorem 1 with NO size guard.  Theorems 1, 10 and 16 are guarded by [short] (payload, output
+       shorter than 2^64 bytes) - properties of what the model computes.  Theorems 8, 11, 12, 14 derive
+       such guards from [in_range], whose data bound 2^31-1024 is the RLP DECODER's limit and has
+       nothing to do with signing.  Here the guards are on the inputs only and cover every input the
+       Go signing functions can be given on a 64-bit platform: [sign_range t] (20-byte destination,
+       integer fields below 2^256 in magnitude - the property's quantifier -, data shorter than 2^63
+       bytes: Go's int), every non-negative int64 chain id (0 <= chain < 2^63; theorems 4, 11 stop at
+       2^61), and for the bytes a 27/28 answer with |R|, |S| < 2^256.  Conclusions: the signer is
+       asked to sign exactly the prescribed preimage; its error or panic is the result; the returned
+       bytes are shorter than 2^64 (so [short] was never a restriction on these inputs) and are
+       exactly the prescribed wire format. *)
+Theorem C01_wire_format_no_size_guard :
+  forall (m : mode) (t : tx) (f : signer) (chain : Z),
+  sign_range t -> (0 <= chain < 2 ^ 63)%Z ->
+  let fm := format_of m t in
+  let c := Z.to_N chain in
+  let pre := spec_preimage fm (norm t) c in
+  sp_data (payload_of m t chain) = pre /\
+  match f pre with
+  | Ok (v, r, s) =>
+      exists out, sign_mode m t (Some f) chain = Ok out /\
+        (v_legacy v -> (Z.abs r < two256)%Z -> (Z.abs s < two256)%Z ->
+         short out /\ out = spec_signed fm (norm t) c (y_of v) (Z.abs_N r) (Z.abs_N s))
+  | Err e => sign_mode m t (Some f) chain = Err e
+  | Panic => sign_mode m t (Some f) chain = Panic
+  end.
+Proof. exact sign_wire_format_no_size_guard. Qed.
+Print Assumptions C01_wire_format_no_size_guard.
+
+(* [sign_range] is [in_range] with the decoder's data bound replaced by Go's: weaker *)
+Theorem C01_in_range_sign_range : forall t : tx, in_range t -> sign_range t.
+Proof. exact in_range_sign_range. Qed.
+Print Assumptions C01_in_range_sign_range.
+
+(* 21. Theorem 14 without its recovery clause, for data of ANY length (the property's quantifier:
+       "data of any length") and every non-negative int64 chain id: with the KeyPair signer over a
+       lawful group, signing succeeds (given a usable nonce), R, S in [1,n-1], low S, the signature
+       verifies against d*G over the hash of the prescribed preimage, and for V in 27/28 the bytes
+       are shorter than 2^64 and exactly the prescribed wire format.  The recovery clause (theorem 14)
+       keeps the data bound 2^31-1024 because RecoverRawTransaction refuses longer input. *)
+Theorem C01_sign_succeeds_wire_any_data :
+  forall (o : group_ops), laws o -> (n o < SM.two256)%Z ->
+  forall (H : bytes -> bytes), (forall x, length (H x) = 32%nat) ->
+  forall (nonce : Z -> bytes -> nat -> Z) (fuel : nat)
+         (m : mode) (t : tx) (d : N) (chain : Z),
+  (1 <= Z.of_N d < n o)%Z -> (0 <= chain < 2 ^ 63)%Z -> sign_range t ->
+  let fm := format_of m t in
+  let c := Z.to_N chain in
+  let pre := spec_preimage fm (norm t) c in
+  some_nonce_usable o nonce fuel d (H pre) ->
+  exists out v r s,
+    sign_mode m t (Some (KeyPairSign H (secp_sign_direct o nonce fuel) d)) chain = Ok out /\
+    SM.SignDirect o nonce fuel (Z.of_N d) (H pre) = Ok {| SM.sV := v; SM.sR := r; SM.sS := s |} /\
+    (1 <= r < n o)%Z /\ (1 <= s < n o)%Z /\ (2 * s <= n o)%Z /\
+    ecdsa_verify o (pub o (Z.of_N d)) (SM.hash_to_z (H pre)) r s = true /\
+    (v_legacy v -> short out /\ out = spec_signed fm (norm t) c (y_of v) (Z.to_N r) (Z.to_N s)).
+Proof. exact sign_succeeds_wire_any_data. Qed.
+Print Assumptions C01_sign_succeeds_wire_any_data.
+
+(* 22. The same with Keccak-256 of Base/Keccak.v as the hash (32-byte law proved). *)
+Theorem C01_sign_succeeds_wire_any_data_keccak :
+  forall (o : group_ops), laws o -> (n o < SM.two256)%Z ->
+  forall (nonce : Z -> bytes -> nat -> Z) (fuel : nat)
+         (m : mode) (t : tx) (d : N) (chain : Z),
+  (1 <= Z.of_N d < n o)%Z -> (0 <= chain < 2 ^ 63)%Z -> sign_range t ->
+  let fm := format_of m t in
+  let c := Z.to_N chain in
+  let pre := spec_preimage fm (norm t) c in
+  some_nonce_usable o nonce fuel d (keccak256 pre) ->
+  exists out v r s,
+    sign_mode m t (Some (KeyPairSign keccak256 (secp_sign_direct o nonce fuel) d)) chain = Ok out /\
+    SM.SignDirect o nonce fuel (Z.of_N d) (keccak256 pre) = Ok {| SM.sV := v; SM.sR := r; SM.sS := s |} /\
+    (1 <= r < n o)%Z /\ (1 <= s < n o)%Z /\ (2 * s <= n o)%Z /\
+    ecdsa_verify o (pub o (Z.of_N d)) (SM.hash_to_z (keccak256 pre)) r s = true /\
+    (v_legacy v -> short out /\ out = spec_signed fm (norm t) c (y_of v) (Z.to_N r) (Z.to_N s)).
+Proof. exact sign_succeeds_wire_any_data_keccak. Qed.
+Print Assumptions C01_sign_succeeds_wire_any_data_keccak.
+
+(* non-vacuity of theorems 20-22 OUTSIDE the region of the earlier theorems: (i) there are data
+   lengths above [in_range]'s bound and below 2^63, and a transaction with data of any such length
+   is in [sign_range] and not in [in_range]; (ii) on the largest int64 chain id 2^63-1 (not
+   [chain_ok]: theorems 4/11 do not apply) an EIP-155 signing with the constant signer (28,5,6)
+   meets every hypothesis of theorem 20, V is a 9-byte scalar and the bytes are the prescribed ones;
+   (iii) the toy-group KeyPair signer on that chain id meets the hypotheses of theorem 21. *)
+Example C01_nonvacuous_no_size_guard :
+  (exists n, (data_max < n)%nat /\ (N.of_nat n < 2 ^ 63)%N) /\
+  (forall n, (data_max < n)%nat -> (N.of_nat n < 2 ^ 63)%N ->
+     let t := mkTx (Some 9%Z) (Some 1%Z) None None (Some 21000%Z) None (Some 1%Z) (Some (repeat xff n)) in
+     sign_range t /\ ~ in_range t) /\
+  let t := mkTx (Some 9%Z) (Some 20000000000%Z) None None (Some 21000%Z) (Some (repeat x35 20)) (Some 1%Z) (Some (repeat xff 60)) in
+  let chain := (2 ^ 63 - 1)%Z in
+  let f : signer := fun _ => Ok (28%Z, 5%Z, 6%Z) in
+  let nonce : Z -> bytes -> nat -> Z := fun _ _ _ => 2%Z in
+  sign_range t /\ (0 <= chain < 2 ^ 63)%Z /\ ~ chain_ok chain /\
+  v_legacy 28 /\ (Z.abs 5 < two256)%Z /\ (Z.abs 6 < two256)%Z /\
+  length (BE (spec_v Eip155 (2 ^ 63 - 1) 1)) = 9%nat /\
+  (exists out, sign_mode LegacyEIP155 t (Some f) chain = Ok out /\ short out /\
+     out = spec_signed Eip155 (norm t) (2 ^ 63 - 1) 1 5 6) /\
+  some_nonce_usable Toy.ops nonce 1 5%N (toyH (spec_preimage Eip155 (norm t) (2 ^ 63 - 1))).
+Proof.
+  split.
+  { exists (data_max + 1)%nat. split; [lia|]. pose proof data_max_val.
+    change (2 ^ 63)%N with 9223372036854775808%N. lia. }
+  split.
+  { intros n Hlo Hhi t. split.
+    - unfold sign_range, below256, two256. cbn. rewrite repeat_length. repeat split; lia.
+    - intros (_ & _ & _ & _ & _ & _ & _ & Hd). change (length (repeat xff n) <= data_max)%nat in Hd. rewrite repeat_length in Hd. lia. }
+  cbv zeta.
+  split; [unfold sign_range, below256, two256; cbn; repeat split; lia|].
+  split; [lia|]. split; [unfold chain_ok; lia|]. split; [right; reflexivity|].
+  split; [unfold two256; cbn; lia|]. split; [unfold two256; cbn; lia|].
+  split; [vm_compute; reflexivity|].
+  split.
+  { eexists. split; [vm_compute; reflexivity|]. split; [unfold short; vm_compute; reflexivity|].
+    vm_compute. reflexivity. }
+  exists 0%nat. split; [lia|vm_compute; discriminate].
+Qed.
